@@ -56,3 +56,8 @@ add("C12", "c12", "exploration", 1500, 40000, exhaustive_if=["FilterWrappersExha
 
 add("C13", "c13", "exploration", 500, 10000,
     assumptions=["the restricted registry is played by a second ocimem driven with the unprefixed names", "registries treat repository names as opaque strings (a name with dot segments is passed below the prefix verbatim and rejected or not found there)"])
+
+add("C14", "c14", "exploration", 500, 8000,
+    assumptions=["sequential histories here; the concurrent part of the immutable-tags claim is exercised by the C08 workloads (ledger invariant under -race)",
+                 "child descriptors are truthful about media types (a descriptor whose media type disagrees with the stored manifest is outside the generated domain)",
+                 "subjects are not part of the closure (a subject may dangle from the start)"])
